@@ -89,12 +89,18 @@ func (m *HealthMonitor) InjectHealthEventForVerif(t HealthEventType) {
 // Calling it after the timer was stopped reproduces a time.AfterFunc callback that had already fired and
 // was waiting for the controller's mutex when Stop() was called.
 func (c *FailoverController) StaleFailoverTimerForVerif() func() {
-	return func() { c.executeFailover("partner health check failure") }
+	c.mu.RLock()
+	gen := c.timerGen
+	c.mu.RUnlock()
+	return func() { c.executeFailover("partner health check failure", gen) }
 }
 
 // StaleFailbackTimerForVerif is the failback counterpart of StaleFailoverTimerForVerif.
 func (c *FailoverController) StaleFailbackTimerForVerif() func() {
-	return func() { c.executeFailback("partner recovered") }
+	c.mu.RLock()
+	gen := c.timerGen
+	c.mu.RUnlock()
+	return func() { c.executeFailback("partner recovered", gen) }
 }
 
 // DeadlinesForVerif returns the expiry times of the most recently armed failover and failback timers.
